@@ -1487,16 +1487,21 @@ class Macro:
                     res_tokens.append(nexttok)
                     self.has_strcat = True
                     continue
+                # The lexer may read the pasted text as more than one token
+                # (it has no prefixed string literals: L ## "s"); none of
+                # the text may be lost.
                 lex = Lexer(_spelling(last) + _spelling(nexttok))
-                tok = lex.tokenize_one()
-                if tok is None:
+                pasted = lex.tokenize()
+                if not pasted:
                     raise ParseError(
                         f"Invalid concatenation: {lex.string}",
                     )
-                tok.prev_white = last.prev_white
+                pasted[0].prev_white = last.prev_white
                 # The result of a paste is never a parameter, even if it
                 # happens to be spelled like one.
-                tok.pasted = True
+                for tok in pasted:
+                    tok.pasted = True
+                res_tokens.extend(pasted[:-1])
             elif _is_symbol(tok, "#"):
                 if isinstance(self, MacroFunction):
                     self.has_strcat = True
@@ -1656,13 +1661,13 @@ class MacroFunction(Macro):
                         lex = Lexer(
                             _spelling(last[-1]) + _spelling(nexttok[0]),
                         )
-                        tok = lex.tokenize_one()
-                        if tok is None:
+                        pasted = lex.tokenize()
+                        if not pasted:
                             raise ParseError(
                                 f"Invalid concatenation: {lex.string}",
                             )
-                        tok.prev_white = last[-1].prev_white
-                        toadd = last[:-1] + [tok] + nexttok[1:]
+                        pasted[0].prev_white = last[-1].prev_white
+                        toadd = last[:-1] + pasted + nexttok[1:]
                         if toadd[0].prev_white != prev_white:
                             cp = copy(toadd[0])
                             cp.prev_white = prev_white
